@@ -1,8 +1,9 @@
 (* Extraction of the RPC lock-down model for ocaml/rpc/driver.ml.  ExtrOcamlBasic only. *)
-From AQ Require Import Lib.Bytes Lib.ExtractBase Rpc.Registry Rpc.Dispatch Generated.GenApis Rpc.RpcModel.
+From AQ Require Import Lib.Bytes Lib.ExtractBase Rpc.Registry Rpc.Dispatch Rpc.Invoke Generated.GenApis Rpc.RpcModel.
 Require Extraction.
 Require Import ExtrOcamlBasic.
 Extraction "../ocaml/rpc/model.ml" base_anchor
   gen_exposed gen_apis gen_apis_clique gen_meta_api gen_default_config gen_callers
   exposed register is_allowed is_protected env_bool format_name wire_name modules signs_of
-  all_off flag_of register_all new_server resolve parse.
+  all_off flag_of register_all new_server resolve parse
+  invoke_single invoke_batch invoke_message gen_argtab first_param_of.
